@@ -2,7 +2,7 @@
 # Applies a seeded change to /repo, runs the given checks, and undoes the change straight afterwards.
 #   tools/seedrun.sh <patch.diff> [--tier quick|thorough] <check ids...>
 set -u
-patch="$1"; shift
+patch="$(realpath "$1")"; shift
 tier=quick
 if [ "${1:-}" = "--tier" ]; then tier="$2"; shift 2; fi
 cd /verif
